@@ -54,7 +54,13 @@ pub fn case(line: &str) -> String {
         Ok(w) => util::guarded(|| unifier::unify(&open, w, &mut dc)).unwrap_or(false),
         Err(_) => false,
     };
+    let self_unify_swapped = match &whnf {
+        Ok(w) => util::guarded(|| unifier::unify(w, &open, &mut dc)).unwrap_or(false),
+        Err(_) => false,
+    };
     let after_unify = snapshot(&tc, &dc);
+    // the closed program normalised by itself (definitions are substituted by `open` rather than looked up in a context)
+    let whnf_closed = util::guarded(|| { let mut dc1: DCtx = vec![]; normalizer::normalize_weak_head(&closed, &mut dc1) });
     let (mut tc0, mut dc0): (TCtx, DCtx) = (vec![], vec![]);
     let r_closed = util::guarded(|| type_checker::type_check(None, src, &closed, &mut tc0, &mut dc0));
     let mut note = String::new();
@@ -79,7 +85,8 @@ pub fn case(line: &str) -> String {
         Err(_) => (false, none.clone(), true),
     };
     json!({"ev": "ctx", "binders": binders, "open": tj::tj(&open), "closed": rec["t"], "ok_open": ok_open, "ty_open": ty_open, "ok_closed": ok_closed, "ty_closed": ty_closed,
-           "crashed": crashed_o || crashed_c, "whnf_open": match &whnf { Ok(w) => tj::tj(w), Err(_) => none.clone() }, "self_unify": self_unify,
+           "crashed": crashed_o || crashed_c, "whnf_open": match &whnf { Ok(w) => tj::tj(w), Err(_) => none.clone() }, "self_unify": self_unify, "self_unify_swapped": self_unify_swapped,
+           "whnf_closed": match &whnf_closed { Ok(w) => tj::tj(w), Err(_) => none.clone() },
            "ctx_restored": note.is_empty(), "ctx_note": note}).to_string()
 }
 
